@@ -168,6 +168,7 @@ var wantChans = []wantChan{
 type pkgInfo struct {
 	consts map[string]string // "fn.name" -> exact value
 	chans  map[string]string // "fn.var" -> capacity
+	waits  map[string]bool   // fn -> the function waits for a goroutine (bare receive statement or x.Wait())
 	err    error
 }
 
@@ -175,7 +176,7 @@ var fset = token.NewFileSet()
 var sharedImporter = importer.ForCompiler(fset, "source", nil)
 
 func load(repo, dir string) *pkgInfo {
-	pi := &pkgInfo{consts: map[string]string{}, chans: map[string]string{}}
+	pi := &pkgInfo{consts: map[string]string{}, chans: map[string]string{}, waits: map[string]bool{}}
 	full := filepath.Join(repo, dir)
 	pkgs, err := parser.ParseDir(fset, full, func(fi os.FileInfo) bool {
 		return !strings.HasSuffix(fi.Name(), "_test.go")
@@ -212,6 +213,17 @@ func load(repo, dir string) *pkgInfo {
 									pi.consts[fn+"."+id.Name] = exact(tv.Value)
 								}
 								recordChan(pi, info, fn, id.Name, d.Values[i])
+							}
+						}
+					case *ast.ExprStmt:
+						switch x := d.X.(type) {
+						case *ast.UnaryExpr:
+							if x.Op == token.ARROW {
+								pi.waits[fn] = true
+							}
+						case *ast.CallExpr:
+							if sel, ok := x.Fun.(*ast.SelectorExpr); ok && sel.Sel.Name == "Wait" {
+								pi.waits[fn] = true
 							}
 						}
 					case *ast.AssignStmt:
@@ -339,6 +351,14 @@ func main() {
 		p := get(w.dir)
 		v, ok := p.chans[w.fn+"."+w.varName]
 		emit(w.coq, "N", v, ok)
+	}
+	b.WriteString("\n(* does the entry point wait for its writer goroutine(s) before returning? *)\n")
+	for _, w := range []struct{ coq, dir, fn string }{
+		{"waits_displayrtcm3", "apps/displayrtcm3", "HandleMessages"},
+		{"waits_rtcmfilter", "apps/rtcmfilter", "HandleMessages"},
+		{"waits_rtcmlogger", "apps/rtcmlogger", "start"},
+	} {
+		fmt.Fprintf(&b, "Definition %s : bool := %v.\n", w.coq, get(w.dir).waits[w.fn])
 	}
 	if *out != "" {
 		path := filepath.Join(*out, "GenConsts.v")
